@@ -173,6 +173,24 @@ Proof.
 Qed.
 Print Assumptions C03_reproduce_extends.
 
+(* ... and at the end of the reproduction phase the record of the generation holds at most one
+   link innovation per (in, out, recurrent) and at most one node innovation per split gene
+   (in, out, old innovation number): identical innovations of one generation are one record, hence
+   one set of numbers and one node id. *)
+Theorem C03_one_record_per_innovation :
+  forall C o gen p sorted x s p' x' s' R NR,
+    rok C (s_env s) R NR -> hall (gok C (s_env s) R NR) (p_heap p) ->
+    reproduce o gen p sorted x s = Ok ((p', x'), s') ->
+    forall i j, In i (innovs (s_env s')) -> In j (innovs (s_env s')) ->
+      (i_type i = 2 -> i_type j = 2 -> i_in i = i_in j -> i_out i = i_out j -> i_rec i = i_rec j -> i = j) /\
+      (i_type i = 1 -> i_type j = 1 -> i_in i = i_in j -> i_out i = i_out j -> i_old i = i_old j -> i = j).
+Proof.
+  intros C o gen p sorted x s p' x' s' R NR RO Hh H i j Hi Hj.
+  destruct (reproduce_ok mutators_ok_holds C o gen p sorted x s p' x' s' R NR RO Hh H) as (R' & NR' & _ & _ & RO' & _).
+  split; [apply (ro_lkey _ _ _ _ RO')|apply (ro_nkey _ _ _ _ RO')]; assumption.
+Qed.
+Print Assumptions C03_one_record_per_innovation.
+
 (* ---------- non-vacuity: a concrete run (Go's PRNG seeded with 42), spawn + three epochs ---------- *)
 Definition ex_opts : options :=
   OPT [0x1p-01%float; 0x1p+00%float; 0x1.4p+01%float; 0x1p+00%float; 0x1p+00%float; 0x1.999999999999ap-02%float;
@@ -240,7 +258,7 @@ Example C03_example_history :
     new_population ex_opts ex_start ex_s0 = Ok (p, s) /\ history ex_opts p s l p' s' /\ length l = 3%nat.
 Proof.
   assert (Hok : is_ok (run_population ex_opts ex_start ex_s0 ex_fit 3) = true) by (vm_compute; reflexivity).
-  destruct (run_population ex_opts ex_start ex_s0 ex_fit 3) as [[l s2]| | | | |] eqn:E; try discriminate.
+  destruct (run_population ex_opts ex_start ex_s0 ex_fit 3) as [[l s2]| | | | |] eqn:E; try (discriminate Hok).
   destruct (run_population_history _ _ _ _ _ _ _ E) as (p & s & l' & p' & s' & A & B & D & _).
   exists p, s, l', p', s'. auto.
 Qed.
